@@ -143,6 +143,14 @@ func genPosition(rng *PRNG, terminalPct int) (string, *rules.Pos) {
 	}
 	p := rules.MustFen(fen)
 	n := 0
+	if fen == rules.StartFen && rng.Intn(80) == 0 {
+		// a very long game, close to the engine's documented capacity of 512 plies
+		ms := Playout(p, rng.Range(300, 510), rng)
+		if len(p.LegalMoves()) > 0 && p.HalfMove < 100 {
+			return "position startpos moves " + strings.Join(ms, " "), p
+		}
+		p = rules.MustFen(fen)
+	}
 	switch rng.Intn(4) {
 	case 0:
 		n = 0
